@@ -21,7 +21,10 @@ RULE = ("random operation histories (length <= 12, thorough <= 16) over a pool o
         "EmptySignal, FunctionSignal, GaussianNoise, a Signal subclass and a FunctionSignal subclass "
         "overriding __radd__; operations: constructors, copy, +, 0+s, s+0, sum, *, reflected *, /, *=, /=, "
         "with_times, shift, FunctionSignal.filter_frequencies / set_buffers, and composite steps that filter (and buffer) a "
-        "function-backed signal and add it to a sampled signal on the same grid in either order; a step is non-trivial when "
+        "function-backed signal and add it to a sampled signal on the same grid in either order, or re-grid the SAME object "
+        "repeatedly onto grids of equal length and end points (once more after an in-place scaling); array arguments as "
+        "ndarray / list / tuple, value types as name / Enum member / int, scale factors as Python or numpy scalars or 0-d "
+        "arrays incl. 1, 0.1 and division by 3; a step is non-trivial when "
         "it creates or mutates an object (errors and refusals are counted separately); distinct = "
         "distinct (history prefix, operation) pairs")
 LEVEL_TEXT = ("theorems about the executable object-graph model (every constructor/operation keeps "
@@ -33,7 +36,9 @@ LEVEL_NOTE = ("Assumed: numpy array allocation/copy semantics (np.array copies, 
               "binary-operator dispatch and copy.deepcopy of lists of numbers/functions.  Signal.resample, "
               "envelope, spectrum and FFT filtering of sampled signals (C05) are outside the model; "
               "function-backed signals are evaluated for a pool of nine functions (four of them accept scalar times only and raise TypeError / ValueError on arrays, so that the one-at-a-time fallback of FunctionSignal.values is exercised) and scalar-gain filters.  "
-              "Arrays are float64 (integer dtype arrays make `*=`/`+=` with a float raise and are excluded).  "
+              "Arrays hold float64 values and are handed over as ndarray, list or tuple; value types as name, Enum member or int; "
+              "scale factors as Python int/float, numpy float64/int64 scalar or 0-d array "
+              "(integer / float32 dtype arrays make `*=`/`+=` with a float raise or round and are excluded).  "
               "No theorem is partial.")
 EXTRACTORS = []
 CHECKER_MODULES = ["PyrexVerif.Proofs.SignalsThms", "PyrexVerif.Proofs.SignalsInterp", "PyrexVerif.Proofs.FnAlgebra"]
@@ -207,6 +212,36 @@ class Impl:
         res["partition"] = self.partition()
         return res
 
+    # ---- container / enum forms of the arguments (deterministic in the position within the history, so that
+    #      replays see the same forms): ndarray, list, tuple for array arguments; name, Enum member, int for types
+    def form(self, arr, salt=0):
+        sel = (len(self.objs) * 3 + len(self.exts) + salt) % 5
+        if sel == 3:
+            return [float(x) for x in arr]
+        if sel == 4:
+            return tuple(float(x) for x in arr)
+        return arr
+
+    def scalar_form(self, q):
+        """Python int/float, numpy float64 / int64 scalar or 0-d array"""
+        np = env()["np"]
+        sel = (2 * len(self.objs) + len(self.exts)) % 6
+        if sel == 2:
+            return np.float64(q)
+        if sel == 3:
+            return np.array(float(q))
+        if sel == 4 and float(q) == int(q):
+            return np.int64(int(q))
+        return q        # (float32 scalars are excluded: numpy promotion makes every later factor float32)
+
+    def vt_form(self, vt):
+        S = env()["S"]
+        sel = (len(self.objs) + 2 * len(self.exts)) % 4
+        if vt == "undefined":
+            return [None, None, S.Signal.Type.undefined, 0][sel]
+        member = S.Signal.Type[vt]
+        return [vt, vt, member, member.value][sel]
+
     # ---- operations; each returns the reply string in the model's vocabulary
     def ident(self, r):
         for j, o in enumerate(self.objs):
@@ -231,6 +266,8 @@ class Impl:
             return "typeError"
         except (IndexError, ZeroDivisionError):
             return "raise"
+        except Exception as e:      # anything else is a crash of the implementation on a valid call form
+            return "crash:" + type(e).__name__
         if r is None:
             return "unit"
         return self.ident(r)
@@ -244,8 +281,8 @@ class Impl:
             return "ext"
         if k == "mk":
             cls, t, v, vt = op[1:]
-            ta, va = self.exts[t], self.exts[v]
-            vtarg = None if vt == "undefined" else vt
+            ta, va = self.form(self.exts[t]), self.form(self.exts[v], 1)
+            vtarg = self.vt_form(vt)
             if cls == "gauss":
                 tape = list(va)
                 orig = np.random.normal
@@ -258,11 +295,11 @@ class Impl:
             return self.guarded(lambda: c(ta, va, vtarg))
         if k == "mkEmpty":
             t, vt = op[1:]
-            return self.guarded(lambda: S.EmptySignal(self.exts[t], None if vt == "undefined" else vt))
+            return self.guarded(lambda: S.EmptySignal(self.form(self.exts[t]), self.vt_form(vt)))
         if k == "mkFunc":
             cls, t, fn, vt = op[1:]
             c = {"func": S.FunctionSignal, "userFunc": E["UserFunc"]}[cls]
-            return self.guarded(lambda: c(self.exts[t], E["fns"][fn], None if vt == "undefined" else vt))
+            return self.guarded(lambda: c(self.form(self.exts[t]), E["fns"][fn], self.vt_form(vt)))
         if k == "copy":
             return self.guarded(lambda: self.objs[op[1]].copy())
         if k == "add":
@@ -270,17 +307,17 @@ class Impl:
                 return self.objs[x[1]] if x[0] == "o" else x[1]
             return self.guarded(lambda: val(op[1]) + val(op[2]))
         if k == "mul":
-            return self.guarded(lambda: self.objs[op[1]] * op[2])
+            return self.guarded(lambda: self.objs[op[1]] * self.scalar_form(op[2]))
         if k == "rmul":
-            return self.guarded(lambda: op[1] * self.objs[op[2]])
+            return self.guarded(lambda: self.scalar_form(op[1]) * self.objs[op[2]])
         if k == "div":
-            return self.guarded(lambda: self.objs[op[1]] / op[2])
+            return self.guarded(lambda: self.objs[op[1]] / self.scalar_form(op[2]))
         if k == "imul":
-            return self.guarded(lambda: operator.imul(self.objs[op[1]], op[2]))
+            return self.guarded(lambda: operator.imul(self.objs[op[1]], self.scalar_form(op[2])))
         if k == "idiv":
-            return self.guarded(lambda: operator.itruediv(self.objs[op[1]], op[2]))
+            return self.guarded(lambda: operator.itruediv(self.objs[op[1]], self.scalar_form(op[2])))
         if k == "withTimes":
-            return self.guarded(lambda: self.objs[op[1]].with_times(self.exts[op[2]]))
+            return self.guarded(lambda: self.objs[op[1]].with_times(self.form(self.exts[op[2]])))
         if k == "shift":
             return self.guarded(lambda: self.objs[op[1]].shift(op[2]))
         if k == "filter":
@@ -409,8 +446,8 @@ def partial_share(rng, g):
     return list(g)
 
 
-SCALARS = [2.0, 0.5, -1.0, 4.0, 0.25, 3.0, 1.5, 0.0, 2, -3]
-DIVISORS = [2.0, 4.0, 0.5, -2.0, 2, 8.0, -0.25]
+SCALARS = [2.0, 0.5, -1.0, 4.0, 0.25, 3.0, 1.5, 0.0, 2, -3, 1, 1.0, 0.1]
+DIVISORS = [2.0, 4.0, 0.5, -2.0, 2, 8.0, -0.25, 1, 1.0, -1.0, 3.0, 3]
 
 
 def gen_history(run, im, nsteps):
@@ -500,6 +537,23 @@ def gen_history(run, im, nsteps):
                 do(("shift", k, d))
             else:
                 run.count("shift_skipped_inexact_grid")
+        elif r < 0.915:
+            # the SAME object re-gridded repeatedly onto grids that agree in length and end points (and once more
+            # after its values changed in place): anything remembered between the calls shows up here
+            eager = [i for i, o in enumerate(im.objs) if not isinstance(o, S.FunctionSignal) and len(o.times) >= 3]
+            if not eager:
+                continue
+            k = rng.choice(eager)
+            g = [float(x) for x in im.objs[k].times]
+            span = [g[0]] + sorted(g[0] + (g[-1] - g[0]) * rng.randint(1, 31) / 32.0 for _ in range(len(g) - 2)) + [g[-1]]
+            if len(set(span)) != len(span):
+                continue
+            do(("withTimes", k, ext(span)))
+            do(("withTimes", k, ext([float(x) for x in __import__("numpy").linspace(g[0], g[-1], len(g))])))
+            if im.objs[k].values.dtype.kind == "f" and rng.random() < 0.7:
+                do(("imul", k, rng.choice([2.0, -1.0, 0.5])))
+            do(("withTimes", k, ext(span)))
+            run.count("regrid_same_object_repeatedly")
         elif r < 0.94:
             # mixed history: a FILTERED (and possibly buffered) function-backed signal combined with a sampled
             # signal on the same grid, in both operand orders, then scaled and re-gridded
@@ -623,9 +677,12 @@ def diff_state(run, impl, model):
     if impl["exts"] != model["exts"]:
         return "caller-owned arrays changed: %s vs model %s" % (impl["exts"], model["exts"])
     for k, (a, b) in enumerate(zip(impl["objs"], model["objs"])):
-        for key in ("cls", "vt", "times", "fns", "t0s", "facs", "bufs", "filts"):
+        for key in ("cls", "vt", "times", "fns", "t0s", "bufs", "filts"):
             if a.get(key) != b.get(key):
                 return "object %d %s: %s vs model %s" % (k, key, a.get(key), b.get(key))
+        if ("facs" in a) != ("facs" in b) or ("facs" in a and not vals_match(run, a["facs"], b["facs"])):
+            # exact for dyadic factors, 1e-12 relative after a division by 3 or a factor 0.1
+            return "object %d facs: %s vs model %s" % (k, a.get("facs"), b.get("facs"))
         if not vals_match(run, a["values"], b["values"]):
             return "object %d values: %s vs model %s" % (k, a["values"], b["values"])
         if "vals" in a and not vals_match(run, a["vals"], b.get("vals", "raise")):
@@ -799,6 +856,9 @@ def oracle_step(run, im, op, rep, before, hist):
         v = im.values_of(s)
         if v != "raise" and len(v) != len(s.times):
             fail.append("object %d has %d values for %d times" % (j, len(v), len(s.times)))
+    if rep.startswith("crash:"):
+        fail.append("%s raised %s on a valid call (argument forms: ndarray / list / tuple, type as name / Enum / int)"
+                    % (k, rep[6:]))
     # 1b. a function-backed signal always reports the direct evaluation of its definition on its own times
     #     (Σ factor·gains·f(t − t0); vectorised and scalar-only functions alike)
     for j, s in enumerate(im.objs):
